@@ -3,7 +3,7 @@
   `BaseHandler.parse`, `apply_selection`, `apply_projection`, `lib.py` `fix_shorthand`,
   `parsers/__init__.py` `parse_ce` / `parse_projection`, `responses/error.py` `ErrorResponse`,
   and the printers `responses/dds.py`, `responses/ascii.py`, `responses/das.py`
-  (`responses/dods.py` as: declaration, `Data:\n`, the values in wire order).
+  (`responses/dods.py`: declaration, `Data:\n`, the XDR payload through C05's `Xdr.encImpl`; `calculate_size`).
 
   The model follows the Python: what is done inside the guarded region of `__call__`
   (every step there can raise: `Except`), what is done while the body is iterated (after the
@@ -22,6 +22,7 @@
 -/
 import PydapModel.Slice
 import PydapModel.XdrSpec
+import PydapModel.Xdr
 namespace Pydap.Handler
 open Pydap
 
@@ -448,7 +449,12 @@ def collect1Core (src : Dataset) (out : List Var) : ProjItem → Except Exc (Lis
           -- the whole grid was collected before: the member is re-set in place (grid object kept)
           match mem with
           | .base b =>
-            if a.name = m then .ok out else
+            if a.name = m then
+              -- the array is the first key: re-set, it goes to the end and the first map takes its place
+              match ms with
+              | [] => .ok out
+              | m0 :: rest => .ok (out.map fun v => if v.name = n then .grid n m0 (rest ++ [b]) else v)
+            else
             .ok (out.map fun v => if v.name = n then .grid n a (setBase ms b) else v)
           | .struct _ _ => .error .unspecified
         | some _ => .error .unspecified
@@ -689,7 +695,7 @@ def memberValues : Member → List Val
   | .base b => b.data
   | .struct _ bs => bs.flatMap (·.data)
 
-/-- the values of the data response in wire order (the XDR framing is C01/C05's subject) -/
+/-- the values of the data response in wire order (what `payload` below carries, variable by variable) -/
 def wireValues : Var → List Val
   | .base b => b.data
   | .struct _ ms => ms.flatMap memberValues
@@ -698,21 +704,100 @@ def wireValues : Var → List Val
 
 def dodsValues (ds : Dataset) : List Val := ds.vars.flatMap wireValues
 
-def hexDigit (n : Nat) : Char := if n < 10 then Char.ofNat (48 + n) else Char.ofNat (87 + n)
+/-! ### the data response on the wire
 
-def hexText (bs : List UInt8) : Str := bs.flatMap fun b => [hexDigit (b.toNat / 16), hexDigit (b.toNat % 16)]
+  The XDR payload of the data response is not re-modelled here: the constrained dataset is handed,
+  as a declaration (`Xdr.Tmpl`) and its data (`Xdr.Data`), to C05's model of `responses/dods.py`
+  (`Xdr.encImpl`: `_basetype` with its Byte / String / regular branches, `_structuretype`,
+  `_sequencetype` flat and general path; `Xdr.calcSize`: `calculate_size`).  What is modelled here
+  is *which* declaration and data the handler hands over: the same constrained dataset the DDS and
+  the ASCII printers get, variable by variable in the same order. -/
 
-/-- a string value on the wire is C05's XDR string field (`XdrSpec.encString`: length word, the
-    bytes, zero padding to a multiple of four) -/
-def wireString (s : Str) : List UInt8 := XdrSpec.encString (s.map fun c => UInt8.ofNat c.toNat)
+/-- the DAP2 type a printed type name stands for.  pydap derives the name from the numpy dtype
+    (`NUMPY_TO_DAP2_TYPEMAP`), which yields only these eight; any other text is outside the domain
+    (read as Int32) -/
+def tyOf (s : Str) : Xdr.Ty :=
+  if s = cs!"Byte" then .byte else if s = cs!"Int16" then .int16 else if s = cs!"UInt16" then .uint16
+  else if s = cs!"Int32" then .int32 else if s = cs!"UInt32" then .uint32 else if s = cs!"Float32" then .float32
+  else if s = cs!"Float64" then .float64 else if s = cs!"String" then .string else .int32
 
-/-- one value of the data response as text: a number in decimal, a string as `s` + the hex of
-    its XDR field -/
-def valText : Val → Str
-  | .int i => intText i
-  | .str s => 's' :: hexText (wireString s)
+/-- number of binary digits of `n` (0 for 0); `fuel` ≥ that number -/
+def bitLen : Nat → Nat → Nat
+  | 0, _ => 0
+  | f + 1, n => if n = 0 then 0 else 1 + bitLen f (n / 2)
 
-def valuesText (vs : List Val) : Str := joinWith [' '] (vs.map valText)
+/-- IEEE-754 bit pattern of the integer `v` in a format with `mant` mantissa bits and exponent bias
+    `bias` (sign bit at position `top`); exact for `|v| < 2^(mant+1)`, which covers the integer-valued
+    data of the model (beyond that the low bits are cut, not rounded) -/
+def ieeeBits (mant bias top : Nat) (v : Int) : Nat :=
+  if v = 0 then 0 else
+  let m := v.natAbs
+  let e := bitLen 64 m - 1
+  (if v < 0 then 2 ^ top else 0) + (bias + e) * 2 ^ mant +
+    ((if e ≤ mant then m * 2 ^ (mant - e) else m / 2 ^ (e - mant)) - 2 ^ mant)
+
+def f32bits (v : Int) : Nat := ieeeBits 23 127 31 v
+def f64bits (v : Int) : Nat := ieeeBits 52 1023 63 v
+
+def strBytes (s : Str) : Xdr.Bytes := s.map fun c => UInt8.ofNat c.toNat
+def bytesStr (b : Xdr.Bytes) : Str := b.map fun x => Char.ofNat x.toNat
+
+/-- a value of the model as a value of declared type `t` in C05's vocabulary: integers as they are
+    (floats as the bit pattern of that integer), strings as their bytes.  A numpy array is
+    homogeneous: a string inside numeric data or a number inside string data cannot be built in
+    Python; the model's value lists could hold one, it is read as 0 / the empty string. -/
+def xVal (t : Xdr.Ty) : Val → Xdr.Val
+  | .int i =>
+    match t with
+    | .string => .str []
+    | .float32 => .num (f32bits i)
+    | .float64 => .num (f64bits i)
+    | _ => .num i
+  | .str s =>
+    match t with
+    | .string => .str (strBytes s)
+    | _ => .num 0
+
+def tmplOfBase (b : Base) : Xdr.Tmpl := .base (tyOf b.ty) b.shape
+
+/-- `var.data` as `_basetype` sees it: 0-d data (`shape = []`, one value) or an array -/
+def dataOfBase (b : Base) : Xdr.Data :=
+  match b.shape with
+  | [] =>
+    match b.data with
+    | [v] => .scalar (xVal (tyOf b.ty) v)
+    | _ => .tuple []                          -- not a 0-d array: no such object (`Base.WF` excludes it)
+  | _ => .array (b.data.map (xVal (tyOf b.ty)))
+
+def tmplOfMember : Member → Xdr.Tmpl
+  | .base b => tmplOfBase b
+  | .struct _ bs => .struct (bs.map tmplOfBase)
+
+def dataOfMember : Member → Xdr.Data
+  | .base b => dataOfBase b
+  | .struct _ bs => .tuple (bs.map dataOfBase)
+
+def tmplOfVar : Var → Xdr.Tmpl
+  | .base b => tmplOfBase b
+  | .struct _ ms => .struct (ms.map tmplOfMember)
+  | .grid _ a ms => .struct (tmplOfBase a :: ms.map tmplOfBase)
+  | .seq _ cols _ => .seq (cols.map fun c => .base (tyOf c.2) [])
+
+def dataOfRow (cols : List (Str × Str)) (r : List Val) : Xdr.Data :=
+  .tuple (List.zipWith (fun c v => Xdr.Data.scalar (xVal (tyOf c.2) v)) cols r)
+
+def dataOfVar : Var → Xdr.Data
+  | .base b => dataOfBase b
+  | .struct _ ms => .tuple (ms.map dataOfMember)
+  | .grid _ a ms => .tuple (dataOfBase a :: ms.map dataOfBase)
+  | .seq _ cols rows => .rows (rows.map (dataOfRow cols))
+
+/-- `dods(dataset)`: the dataset is a Structure -/
+def tmplOf (ds : Dataset) : Xdr.Tmpl := .struct (ds.vars.map tmplOfVar)
+def dataOf (ds : Dataset) : Xdr.Data := .tuple (ds.vars.map dataOfVar)
+
+/-- the XDR part of the data response -/
+def payload (ds : Dataset) : Xdr.Bytes := Xdr.encImpl (tmplOf ds) (dataOf ds)
 
 /-- DAS of a dataset whose variables carry no attributes (attribute printing is C08's subject) -/
 def dasVar (level : Nat) : Var → Str
@@ -779,12 +864,16 @@ def bodyOf (fmt : Int → Str) (k : Kind) (cds : Dataset) : Body :=
   match k with
   | .dds => .complete (ddsText cds)
   | .das => .complete (dasText cds)
-  | .dods => .complete (ddsText cds ++ cs!"Data:\n" ++ valuesText (dodsValues cds))
+  | .dods => .complete (ddsText cds ++ cs!"Data:\n" ++ bytesStr (payload cds))
   | .ascii =>
     match asciiData fmt cds with
     | .ok t => .complete (ddsText cds ++ dashes ++ t)
     | .error e => .raises e
   | .other => .complete []
+
+/-- the `Content-length` header `DODSResponse.__init__` sets: `calculate_size(dataset)`, `none` (no
+    header) when the dataset holds a sequence or strings -/
+def contentLength (cds : Dataset) : Option Nat := Xdr.calcSize (strBytes (ddsText cds)) (tmplOf cds)
 
 /-- `parse_ce` followed by `BaseHandler.parse`: the one constrained dataset of a request -/
 def constrained (ds : Dataset) (query : Str) : Except Exc Dataset :=
@@ -848,5 +937,35 @@ def headersOf : Outcome → Option Headers
 /-- the four response bodies for one query string (C06's observable) -/
 def respond (fmt : Int → Str) (ds : Dataset) (ext query : Str) : Outcome :=
   handle fmt ds (cs!"/d." ++ ext) query
+
+/-! ### a server process holding several datasets
+
+  Handlers living in one process (a `DapServer` directory, several mounted applications): each
+  holds its dataset; a request names its handler.  Serving hands the process back: what pydap keeps
+  between requests is the handlers and their datasets, and `__call__` works on
+  `copy.copy(self.dataset)`, on per-request responses and on no module-level table.  That the
+  process is unchanged is what the model *claims* about the code; the claim is tied by running
+  whole histories against handlers that live in one Python process. -/
+
+structure Proc where
+  handlers : List (Str × Dataset)
+deriving DecidableEq, Repr
+
+structure Req where
+  target : Str
+  path : Str
+  query : Str
+deriving DecidableEq, Repr
+
+/-- one request: the answer (`none`: no handler of that name) and the process afterwards -/
+def serve (fmt : Int → Str) (p : Proc) (r : Req) : Option Outcome × Proc :=
+  match p.handlers.find? (·.1 = r.target) with
+  | none => (none, p)
+  | some h => (some (handle fmt h.2 r.path r.query), p)
+
+/-- a history of requests served one after the other by the same process -/
+def run (fmt : Int → Str) : Proc → List Req → List (Option Outcome)
+  | _, [] => []
+  | p, r :: rs => (serve fmt p r).1 :: run fmt (serve fmt p r).2 rs
 
 end Pydap.Handler
